@@ -44,6 +44,15 @@ def nodes():
             for i in I1:
                 for j in I12:
                     out.append({"op": "sum", "sl": [], "ch": [child([], i), child([x, y], j)]})
+    # a Slot field AFTER an AppliedId field / after a Bind field (layout  W(AppliedId, Slot), Wb(Bind<AppliedId>, Slot))
+    for x in NAMES:
+        for i in I12:
+            out.append({"op": "w", "sl": [], "ch": [child([], i)], "ps": [x]})
+        for y in NAMES:
+            for i in I12:
+                out.append({"op": "wb", "sl": [], "ch": [child([y], i)], "ps": [x]})
+    for n in out:
+        n.setdefault("ps", [])
     return out
 
 if __name__ == "__main__":
